@@ -465,11 +465,15 @@ pub fn gen_mesh(rng: &mut Rng, o: &GenOpts, start_index: usize) -> GMesh {
         let strides: Vec<u8> = streams.iter().map(|x| x.0).collect();
         streams = canonical_streams(rng, &decl, &strides, vcount);
     }
-    let nidx = match rng.below(6) {
+    let mut nidx = match rng.below(6) {
         0 => 0,
         1 => vcount.min(3),
         _ => rng.below((3 * vcount + 1) as u64) as usize,
     };
+    // the index count is a u32: now and then an index list at and beyond the 16-bit boundary
+    if !o.canonical && rng.chance(1, 40) {
+        nidx = *rng.pick(&[65535usize, 65536, 65537, 65545, 70001, 131072 + 7]);
+    }
     let indices: Vec<u16> = (0..nidx)
         .map(|_| if vcount == 0 || (!o.canonical && rng.chance(1, 50)) { rng.below(65536) as u16 } else { rng.below(vcount as u64) as u16 })
         .collect();
